@@ -114,6 +114,9 @@ def build_sequence(spec) -> Sequence:
         seq.config_slm_mask([ids[i] for i in spec["slm"]])
     for p in spec["pulses"]:
         ch = p.get("ch", "ch")
+        if "delay" in p:
+            seq.delay(p["delay"], ch)
+            continue
         if "targets" in p and p["targets"] is not None:
             seq.target([ids[i] for i in p["targets"]], ch)
         seq.add(Pulse(wf(p["amp"]), wf(p["det"]), p.get("phase", 0.0)), ch, protocol=p.get("protocol", "min-delay"))
